@@ -96,8 +96,9 @@ func (s *sessions) update(h Header, n Handler) {
 func (s *sessions) delete(session SessionID) {
 	s.Lock()
 	defer s.Unlock()
-	sessionsActive.Dec()
+	// only a session that was registered counts as active
 	if sc := s.known[session]; sc != nil {
+		sessionsActive.Dec()
 		sc.timer.ObserveDuration()
 	}
 	delete(s.known, session)
@@ -105,8 +106,13 @@ func (s *sessions) delete(session SessionID) {
 
 // close will stop all prom timers, it's the only reason we have this
 func (s *sessions) close() {
-	for _, r := range s.known {
+	s.Lock()
+	defer s.Unlock()
+	// sessions still waiting for a continuation are abandoned with the connection
+	for id, r := range s.known {
+		sessionsActive.Dec()
 		r.timer.ObserveDuration()
+		delete(s.known, id)
 	}
 }
 
